@@ -1,29 +1,72 @@
-(* C06 - No API call order deadlocks; stop()+join() always ends every library thread. *)
-Require Import WD.Base.Prelude WD.Model.Observer WD.Proofs.ObserverProofs WD.Proofs.ObserverExamples.
+(* C06 - No API call order deadlocks; stop()+join() always ends every library thread.
+   All statements are about every reachable state of the observer LTS (Model/Observer.v, start() under
+   the observer lock) = every interleaving of dispatcher, emitter and API threads, calls from callbacks
+   included. *)
+Require Import WD.Base.Prelude WD.Model.Observer WD.Proofs.ObserverProofs WD.Proofs.ObserverInv WD.Proofs.ObserverRet
+  WD.Proofs.ObserverDisp WD.Proofs.ObserverLive WD.Proofs.ObserverExamples.
 
-(* (i) full statement - NOT proved in full (see C06_no_deadlock_partial and the evidence notes). *)
-Definition C06_no_deadlock_full : Prop := forall s, reachable s -> deadlocked s = false.
+(* (i) FULL: no reachable state is deadlocked.  [deadlocked s] = no thread (dispatcher, API thread, emitter)
+   can take a step although some thread waits for the observer lock, in emitter.join(), or in
+   observer.join() after stop() was requested.  Proved by the wait-for argument: the lock owner is never
+   blocked on the lock, in get, or in join(dispatcher) from a non-dispatcher thread; a joined emitter
+   exists and, if started, is running (hence enabled) or exited; whenever the flagged dispatcher waits in
+   get the stop marker is queued or its put is pending in a thread that is not blocked. *)
+Theorem C06_no_deadlock : forall s, reachable s -> deadlocked s = false.
+Proof. exact no_deadlock. Qed.
+Print Assumptions C06_no_deadlock.
 
-(* (i, partial) while any emitter thread is running the system is not deadlocked, because ... *)
-Theorem C06_no_deadlock_partial : forall s, existsb em_running (ems s) = true -> deadlocked s = false.
-Proof. exact running_not_deadlocked. Qed.
-Print Assumptions C06_no_deadlock_partial.
+(* [thread_enabled] / [any_enabled], on which [deadlocked] is built, are sound: an enabled thread can take
+   a step of the LTS (so "not deadlocked" really means "some label is enabled"). *)
+Theorem C06_enabled_sound : forall s t, reachable s -> thread_enabled s t = true -> exists l s', step s l = Some s'.
+Proof. exact enabled_sound. Qed.
+Print Assumptions C06_enabled_sound.
 
-(* ... a started, not yet exited emitter thread can always take a step: it never waits for the observer
-   lock (nor for anything else). *)
+Theorem C06_stuck_implies_progress : forall s t, reachable s -> In t (all_tids s) -> thread_stuck s t = true ->
+  exists l s', step s l = Some s'.
+Proof. exact stuck_implies_progress. Qed.
+Print Assumptions C06_stuck_implies_progress.
+
+(* LockInv (DESIGN.md §8b): the lock's owner and count agree with the continuations of all threads: every
+   registry-touching instruction, every handler turn, is reached only with the lock held by its thread. *)
+Theorem C06_lock_invariant : forall s, reachable s -> LockInv s.
+Proof. exact LockInv_reachable. Qed.
+Print Assumptions C06_lock_invariant.
+
+(* `for e in self._emitters` never raises "Set changed size during iteration" (it did in the pinned code,
+   where start() touched the set without the lock): the stop marker can therefore not be lost. *)
+Theorem C06_emitter_iteration_stable : forall s t n k, reachable s -> cont s t = IIterChk n :: k ->
+  length (emitters s) = n.
+Proof. exact iter_check_passes. Qed.
+Print Assumptions C06_emitter_iteration_stable.
+
+(* an emitter thread never waits for anything *)
 Theorem C06_emitter_never_blocked : forall s e m, get_em s e = Some m -> em_running m = true ->
   exists l s', em_of l = Some e /\ step s l = Some s'.
 Proof. exact emitter_never_blocked. Qed.
 Print Assumptions C06_emitter_never_blocked.
 
-(* (ii) bounded shutdown of emitter threads: once its stop flag is set, each own step of an emitter
-   strictly decreases em_bound (<= 3), the flag stays set; with weak fairness the join in
-   unschedule / unschedule_all / stop therefore returns. *)
+(* (ii) bounded shutdown.  Emitter threads: once its stop flag is set, each own step of an emitter strictly
+   decreases em_bound (<= 3) and the flag stays set. *)
 Theorem C06_emitter_bounded : forall s l s' e m,
   step s l = Some s' -> em_of l = Some e -> get_em s e = Some m -> estop m = true ->
   exists m', get_em s' e = Some m' /\ estop m' = true /\ em_bound m' < em_bound m.
 Proof. exact emitter_bounded. Qed.
 Print Assumptions C06_emitter_bounded.
+
+(* Dispatcher thread: once its stop flag is set, each own instruction of its loop (flag check, get, the
+   dispatch's acquire, snapshot, a handler turn, the dispatch's release, task_done, exit) strictly decreases
+   [dbound s], a computed function of the state (position in the loop, handlers still to serve, head of the
+   queue).  Calls made by callbacks are application steps and are not counted; an application thread that
+   registers more handlers before the snapshot is taken raises the bound (environment step).  With (i) and
+   weak fairness this gives: stop(); join() returns. *)
+Theorem C06_dispatcher_bounded : forall s i k inp s', P3 s -> dstop s = true -> dcont s = i :: k ->
+  loop_step i k = true -> exec s TD i k inp = Some s' -> dbound s' < dbound s.
+Proof. exact dispatcher_loop_bounded. Qed.
+Print Assumptions C06_dispatcher_bounded.
+
+Theorem C06_invariants_reachable : forall s, reachable s -> P3 s.
+Proof. exact P3_reachable. Qed.
+Print Assumptions C06_invariants_reachable.
 
 (* (iii) stop() twice, from inside a callback, is an ordinary reachable state; the run continues to a
    state where every library thread has exited, the lock is free and nothing is deadlocked. *)
@@ -33,6 +76,15 @@ Example C06_stop_twice_from_callback :
 Proof. vm_compute. reflexivity. Qed.
 
 Example C06_shutdown_completes :
-  option_map (fun s => (dcont s, lock s, deadlocked s, finished s, queue s)) (run init tr_shutdown)
-  = Some ([], None, false, true, [QStop]).
+  option_map (fun s => (dcont s, lock s, deadlocked s, finished s, queue s, dbound s)) (run init tr_shutdown)
+  = Some ([], None, false, true, [QStop], 0%nat).
 Proof. vm_compute. reflexivity. Qed.
+
+(* The statement is FALSE of the pinned start() (finding F16, repaired in /repo by 65dd668): in the model of
+   the pinned code (init_of false) a second start() racing with stop() makes stop() raise before it puts
+   the stop marker; the dispatcher waits in get() forever and a later observer.join() is stuck. *)
+Theorem C06_no_deadlock_refuted_pinned : exists s, reachable_pinned s /\ deadlocked s = true /\ dstop s = true /\
+  cont s A1 = [IJoinDisp; IRet CJoin] /\ dcont s = [DGet] /\ queue s = [] /\
+  In (GRet A1 CStop true) (glog s).
+Proof. exact pinned_deadlock. Qed.
+Print Assumptions C06_no_deadlock_refuted_pinned.
